@@ -479,6 +479,7 @@ def c08_parts(tier, seed):
         P("weak-2x1-oldgen", T, "sched", ["--part", "weak", "--threads", 2, "--ops", 1, "--init", 2], require=["probe_hits"]),
         P("weak-2x2", T, "sched", ["--part", "weak", "--threads", 2, "--ops", 2, "--init", 0], require=["probe_hits"], deadline_frac=0.9),
         P("weak-3x1", T, "sched", ["--part", "weak", "--threads", 3, "--ops", 1, "--init", 0], require=["probe_hits"], deadline_frac=0.9),
+        P("histories", T, "sched", ["--part", "history", "--depth", 6 if q else 8], require=["probe_hits", "probe_misses", "slots_decoded"], deadline_frac=0.9),
         P("ply-shift", T, "sched", ["--part", "ply"], require=["nontrivial"]),
         P("index-sweep", T, "sched", ["--part", "index"], require=["nontrivial"], deadline_frac=0.9),
         P("real-tables-3men", T, "sched-asan", ["--part", "real", "--mb", "7,8,9,12,16,17,31,32,33,64", "--fourmen", 0], workers=10, require=["nontrivial"]),
@@ -509,13 +510,16 @@ CHECKS["C08"] = dict(
              "weak: writers-only programs of the same shape (2-3 threads x 1-2 inserts from 5 records), for each the set of values every one of the 8 bucket words holds in any reachable state "
              "of any interleaving, then EVERY element of the product of the 8 sets installed in the bucket and probed for the 3 keys (relaxed-memory over-approximation: a relaxed load may "
              "return any value stored to that location); ply: all scores |s| <= MATE0 x plies 0..200 x 0..200, and setBusy on a stored record for every mate score x ply (the record must read back unchanged); "
+             "histories: every sequence of up to 6 (8) operations from {12 inserts (three keys, deeper / shallower / same-type records, empty move, no evaluation, mate score, four filler keys), probe k0..k2, "
+             "next generation, clear, setBusy} on one bucket, states (8 words + generation + set of records inserted) deduplicated and restored by writing the words back; "
              "index: every Hash value 1..1024 MB, powers of two to 2^20 MB, each minus the tablebase region, in-tree sizes, every multiple of 4 in [512, 9000 (70000)] x all 2^16 key "
              "prefixes x low-bit patterns; real tables: reSize(Hash) + real updateTB for Hash in a boundary list, then hash traffic",
-    oracle="a probe (during or after the interleaving) returns a miss or exactly one record that was passed to insert for that key (move of that call or, for an empty move, of an earlier "
+    oracle="histories: after every operation every non-empty slot decodes (key word xor data word) to a key and a record that were handed to insert together, and the real probe of that key returns it; "
+           "a probe (during or after the interleaving) returns a miss or exactly one record that was passed to insert for that key (move of that call or, for an empty move, of an earlier "
            "record); getScore(q) after setScore(s,p) = s shifted by p-q for mate scores, s otherwise; getIndex+3 < usedSize and 4-aligned; tablebase bytes unchanged by inserts, probes "
            "and generation refreshes and the table still answers",
-    bound=dict(quick="2x1 (3 initial contents), 2x2 (2 initial contents), 3x1; weak products for 2x1 (2 initial contents), 2x2, 3x1; full ply product; index sweep with 12 low-bit patterns; real tables Hash <= 516 MB",
-               thorough="additionally 2x2 full bucket, 3x1 old generation, 3x2 (capped at 2M schedules per program, reported), weak products for all initial contents and 3x2 (programs above 20M mixtures skipped, reported), ASan build, index sweep with 52 patterns, Hash up to 2052 MB"),
+    bound=dict(quick="sequential histories to depth 6; 2x1 (3 initial contents), 2x2 (2 initial contents), 3x1; weak products for 2x1 (2 initial contents), 2x2, 3x1; full ply product; index sweep with 12 low-bit patterns; real tables Hash <= 516 MB",
+               thorough="sequential histories to depth 8; additionally 2x2 full bucket, 3x1 old generation, 3x2 (capped at 2M schedules per program, reported), weak products for all initial contents and 3x2 (programs above 20M mixtures skipped, reported), ASan build, index sweep with 52 patterns, Hash up to 2052 MB"),
     assumptions=["keys and data words of the alphabet satisfy d_A xor d_B != k_A xor k_B (the xor scheme's stated assumption, true for random 64-bit Zobrist keys)",
                  "interleavings are sequentially consistent; weaker orders are covered for the PROBE side only, by the per-location product (any mixture of values ever stored to each word); "
                  "an insert that chooses its slot from such a mixed view is not modelled",
